@@ -125,6 +125,20 @@ impl<'a> CapVisitor for RunHist<'a> {
             obs.ops += 1;
             // equality and Debug depend only on the visible contents: compare with a freshly built buffer
             if i % 3 == 0 || i + 1 == self.ops.len() {
+                // collecting through iterators with exact, loose and unknown size hints
+                // (upper bound of the hint exceeds the capacity although at most N bytes are yielded)
+                let junk = self.cap.map(|c| (c + 1).min(300)).unwrap_or(3);
+                let loose: B = m.v.iter().map(|b| (*b, true)).chain((0..junk).map(|_| (0u8, false))).filter(|x| x.1).map(|x| x.0).collect();
+                let mut k = 0usize;
+                let vv = &m.v;
+                let unknown: B = std::iter::from_fn(|| {
+                    k += 1;
+                    vv.get(k - 1).copied()
+                })
+                .collect();
+                if &loose[..] != &m.v[..] || &unknown[..] != &m.v[..] {
+                    return Err(Fail::new("from_iter", format!("collect of {} bytes (loose / unknown size hint) yields exactly them: {}", m.v.len(), hex(&m.v)), format!("{} / {}", hex(&loose[..]), hex(&unknown[..]))));
+                }
                 let fresh: B = m.v.iter().copied().collect();
                 if &fresh[..] != &m.v[..] {
                     return Err(Fail::new("from_iter", format!("collect of {} bytes yields exactly them: {}", m.v.len(), hex(&m.v)), hex(&fresh[..])));
